@@ -73,6 +73,21 @@ def body(ctx, conv, shape, bounds, layout, nan_cells=None, mesh_opts=None, mode=
     N = P.ncells
     present = [n for n in range(N) if polygons[n] is not None]
     ctx.note('config', dict(conv=conv, shape=str(shape), layout=layout, present=present, mode=mode))
+    # which cells have geometry, and what it is, comes from the dataset (reference written from the convention
+    # documents), not from the code under test
+    from harness.c06 import invalid_cond
+    for n in range(N):
+        has = polygons[n] is not None
+        label = 'the cells with geometry are exactly the complete, valid cells of the dataset'
+        if ctx.symbolic:
+            # (as in C06: validity is decided from the symbolic corners; a complete cell may be absent only when invalid)
+            ctx.check(Not(P.hole(n)) if has else True, label)
+            if not has and not ctx.decide(P.hole(n)):
+                ctx.check(invalid_cond(P, n), label)
+        else:
+            ctx.check(has == ((not bool(P.hole(n))) and P.valid_ref(ctx, n)), label)
+        if polygons[n] is not None:
+            ctx.check(pipeline.ring_matches(geo.poly_coords(polygons[n]), P.corners(n)), "a cell's outline is built from its own coordinates")
     if not present:
         ctx.check(True, 'a dataset without a single cell geometry is outside the claim')
         return
@@ -209,6 +224,18 @@ def cases(tier):
                        patches=_patches(), max_paths=100)
 
 
+    # grids whose cells may be self-intersecting (dropped with a warning) *and* missing: the dropped cell's slot is found in
+    # the full array, not among the cells that exist
+    for conv, shape in ((('cf2d', (1, 3)),) if q else (('cf2d', (1, 3)), ('shoc_simple', (2, 2)))):
+        for mode in ('name',):
+            yield Case(f'{conv}:{shape[0]}x{shape[1]}:stored:nanall:plain:{mode}:symbolic-validity', body,
+                       dict(conv=conv, shape=shape, bounds='stored', layout='plain', nan_cells=None, mode=mode),
+                       patches=_patches('sandwich'), max_paths=5000, split=16, solver='nlsat')
+    # bounds variables whose horizontal dimensions are the other way round are not valid bounds: ignored, cells derived
+    for mode in ('name', 'quiver'):
+        yield Case(f'cf2d:2x3:misdim:nan1:plain:{mode}', body,
+                   dict(conv='cf2d', shape=(2, 3), bounds='misdim', layout='plain', nan_cells=((0, 1),), mode=mode),
+                   patches=_patches(), max_paths=5000, split=8)
     # meshes whose faces may be self-intersecting (dropped with a warning: a cell without geometry in the middle of a
     # mesh): validity decided from the symbolic node coordinates as in C06
     for mesh in (['tq'] if q else ['tq', 'tqp']):
